@@ -1,6 +1,7 @@
 package checks
 
 import (
+	"bytes"
 	"fmt"
 
 	"verif/harness/internal/core"
@@ -125,6 +126,13 @@ func c05Worker(c *core.Collector, x *Ctx) {
 		case 3: // random cuts inside packets
 			for k := 1 + r.Intn(6); k > 0; k-- {
 				cuts = append(cuts, 1+r.Intn(len(stream)))
+			}
+		default: // mode = 100 + k: every frame complete but for its last k bytes, which arrive with the next read
+			k := mode - 100
+			for _, e := range ends {
+				if e-k > 0 {
+					cuts = append(cuts, e-k)
+				}
 			}
 		}
 		sc := &hookScenario{Kind: "hook", Gen: gen, Frames: hexAll(frames), Ops: opsFromCuts(stream, cuts)}
@@ -261,6 +269,34 @@ func c05Worker(c *core.Collector, x *Ctx) {
 			fs = append([][]byte{hookFrame(false, 0x0200, 7, true, 3, 2, []byte{1, 2, 3})}, fs...)
 		}
 		run("random-large", fs, r.Intn(4), r, true)
+	})
+	// sub-packages of MAXIMAL wire size (1012..1023 body bytes that all need escaping: 2066+ bytes per frame with the 16- / 21-byte
+	// sub-package headers) with the last 1..24 bytes of every frame arriving in a separate read
+	nmx := c.N(12, 48)
+	core.ParallelFor(nmx, ncpu(), func(i int) {
+		r := core.NewRand(c.Seed, "c05max", uint64(i))
+		v19 := i%2 == 1
+		N := 2 + i%3
+		var bodies [][]byte
+		for k := 0; k < N; k++ {
+			l := 1023 - r.Intn(12)
+			b := bytes.Repeat([]byte{[]byte{0x7e, 0x7d}[(i+k)%2]}, l)
+			if k == 0 {
+				b[0], b[1], b[2] = 0x21, 0x22, byte(0x23+i%50) // token
+			}
+			bodies = append(bodies, b)
+		}
+		order := []int{1}
+		for _, q := range r.Perm(N - 1) {
+			order = append(order, q+2)
+		}
+		fs := c05Scenario(v19, 0x0801, N, order, bodies, -1, -1, 0, -1)
+		fs = append(fs, hookFrame(v19, 0x0002, 999, false, 0, 0, nil))
+		for _, k := range []int{1, 2, 3, 4, 7, 12, 24} {
+			run(fmt.Sprintf("maximal sub-packages, last %d bytes late", k), fs, 100+k, r, true)
+		}
+		run("maximal sub-packages, coalesced", fs, 2, r, true)
+		c.Count("transfers_of_maximal_size_sub_packages", 1)
 	})
 	// long history on ONE parser: several hundred consecutive transfers (two message IDs alternating and overlapping, all
 	// segmentation modes) so that whatever the parser accumulates over a connection's life (maps, buffers, counters) is aged
